@@ -41,7 +41,7 @@ theorem line_succ (f : Nat) (ih : All f) : SLine (f+1) := by
   simp only at hr hc ⊢
   rw [hq.steps]
   have hq0 := hq.setSteps (t.steps + 1)
-  have hst0 : Settled { t with steps := t.steps + 1 } := hst.congr rfl rfl (fun _ => rfl) (fun _ => rfl)
+  have hst0 : Settled { t with steps := t.steps + 1 } := hst.congr rfl rfl rfl (fun _ => rfl) (fun _ => rfl)
   have hqt0 : Quiet { t with steps := t.steps + 1 } := hqt.of_fr (Fr.of_eq rfl rfl)
   cases hx : Spec.execOp f P { t with steps := t.steps + 1 } l.op with
   | none => rw [hx] at hr; simp at hr
